@@ -15,6 +15,7 @@ import JanetModel.Asm.OperandLemmas
 import JanetModel.Marsh.EnvBitsetLemmas
 import JanetModel.Marsh.CodeRoundtrip
 import JanetModel.Marsh.AbstractLemmas
+import JanetModel.Asm.InstrLemmas
 
 namespace JanetModel.Props.C09
 open JanetModel.Marsh JanetModel.Gen.Marsh
@@ -370,6 +371,29 @@ example : marshalHook (fun v c => marshalC 5 ⟨[.abs .nil [.byte 0] [.byte 0, .
 
 /-- a hook pair that is not well paired (the reader asks for an int where a byte was written) is not accepted -/
 example : acceptsPre chanProg [.int 0] = none := by decide
+
+
+/-! ### asm ∘ disasm on whole instruction words and bytecode arrays  (Asm/Instr.lean)
+
+`decode` mirrors `janet_asm_decode_instruction` (operand fields generated from its switch), `encode` mirrors
+`read_instruction` + `doarg`.  A word is `Canonical` when its breakpoint bit is clear (the assembler has no syntax for it) and no
+bit lies outside the operand fields the assembler writes (only JINT_0 and the upper byte of JINT_S have such bits). -/
+
+/-- **Every opcode, every canonical word**: assembling the disassembly of an instruction word gives the word back - all operand
+layouts of the generated table, signed operands at their minimum included. -/
+theorem asm_disasm_instr (w : Nat) (hc : JanetModel.Asm.Canonical w) (op : JanetModel.Gen.Bytecode.Op) (args : List Int)
+    (hd : JanetModel.Asm.decode w = some (op, args)) : JanetModel.Asm.encode op args = some w :=
+  JanetModel.Asm.encode_decode w hc op args hd
+
+/-- **Whole bytecode array**: `asm (disasm bytecode) = bytecode`, word for word, for any length. -/
+theorem asm_disasm_bytecode (ws : List Nat) (h : ∀ w ∈ ws, JanetModel.Asm.Canonical w) :
+    JanetModel.Asm.asmBytecode (JanetModel.Asm.disasmBytecode ws) = some ws :=
+  JanetModel.Asm.asm_disasm_bytecode ws h
+
+example : JanetModel.Asm.decode 0x80010005 = some (.addImmediate, [0, 1, -128]) := by decide
+example : (JanetModel.Asm.decode 0x80010005).bind (fun p => JanetModel.Asm.encode p.1 p.2) = some 0x80010005 := by decide
+/-- the breakpoint bit is not reproduced (so such a word is excluded by `Canonical`) -/
+example : (JanetModel.Asm.decode 0x80010085).bind (fun p => JanetModel.Asm.encode p.1 p.2) = some 0x80010005 := by decide
 
 
 end JanetModel.Props.C09
